@@ -125,6 +125,14 @@ def main():
                 shutil.copyfile(os.path.join(rp, files[0]), os.path.join(dst, "replay-%s.json" % prop))
         print("%s against %s: exit %d %s" % (prop, a.id, p.returncode, sigs[:2]))
         shutil.rmtree(w, ignore_errors=True)
+    # keep the latest result per property from earlier intake runs
+    mp0 = os.path.join(dst, "meta.json")
+    if os.path.exists(mp0):
+        try:
+            for pr, rr in (json.load(open(mp0)).get("checks") or {}).items():
+                results.setdefault(pr, rr)
+        except Exception:
+            pass
     meta["checks"] = results
     meta["caught_by"] = sorted(p for p, r in results.items() if r.get("exit") == 1)
     meta["ran"] = "tools/seed_intake.py %s (scratch copy of /repo + patch.diff, VERIF_REPO/VERIF_OUT; ./check run <prop> --tier %s --budget %s)" % (a.id, a.tier, a.budget)
